@@ -15,7 +15,7 @@ From RV Require Import Lib.Res Repl.ClientTicks Repl.ClientTicks_proofs Repl.Wor
   Repl.ValSpec Repl.ValSnap_proofs Repl.ValHist_proofs Repl.ValClient_proofs Repl.ValServer_proofs Repl.ValCli_proofs
   Repl.ValSrv_proofs Repl.ValFrame_proofs Repl.ValE2E_proofs
   Repl.ValVisSpec Repl.ValVisHist_proofs Repl.ValVisCli_proofs Repl.ValVisSrv_proofs Repl.ValVisFrame_proofs Repl.ValVisE2E_proofs
-  Repl.ValRefSpec Repl.ValRefHist_proofs Repl.ValRefClient_proofs Repl.ValRefCli_proofs Repl.ValRefSrv_proofs Repl.ValRefFrame_proofs.
+  Repl.ValRefSpec Repl.ValRefHist_proofs Repl.ValRefCheck_proofs Repl.ValRefClient_proofs Repl.ValRefCli_proofs Repl.ValRefSrv_proofs Repl.ValRefFrame_proofs.
 From Coq Require Import ZifyBool ZifyN.
 Open Scope N_scope.
 Ltac Zify.zify_post_hook ::= Z.div_mod_to_equations.
@@ -596,7 +596,7 @@ Section E2ER.
     srv_histr cfg0 nclients script (y_server y) -> srv_histr cfg0 nclients (script ++ [st]) (y_server y') ->
     no_tick0 (script ++ [st]) = true -> forallb sop_ok ops = true -> forallb sop_valsr ops = true ->
     (forall slot, regs_of init (script ++ [st]) slot < 2 ^ 16) -> tick_frames (script ++ [st]) < 2 ^ 31 ->
-    (forall slot, refs_kept cfg0 nclients (script ++ [st]) slot) ->
+    (forall slot, In slot (client_slots nclients) -> refs_kept cfg0 nclients (script ++ [st]) slot) ->
     w_invr script y -> sys_step y st = Ok (y', o) -> w_invr (script ++ [st]) y'.
   Proof.
     intros st Hrun Hf Eg Hokf Hh Hh' Hn0 Hops Hvals Hregs Hb' Hrk Hinv H. unfold st in H. pose proof H as H0.
@@ -670,7 +670,7 @@ Section E2ER.
       exact (f_in_flight cfg0 nclients script y gs slot c Hokf Hb Eg Hc Em Es). }
     assert (Hdf : forall u, upd_for slot (fo_clients fo) = Some u -> forall d, In d (u_despawns u) ->
               forall t r s0, SNof slot script t r s0 -> ~ refd slot s0 d).
-    { intros u Hu d Hd. apply (Hrk slot script st [] y eq_refl Hrun d).
+    { intros u Hu d Hd. apply (Hrk slot (client_slot_in cfg0 nclients script y slot c Hrun Hc) script st [] y eq_refl Hrun d).
       unfold desp_step, st. rewrite Hcfg. fold s. rewrite Ef, Hu. exact Hd. }
     destruct (sframer_slot slot (SNof slot script) (SNof slot (script ++ [st])) Hsn cfg0 s tick dt cleanup ops parts s' fo
                 (gv_srv _ Hg) Hrunning (gv_slots _ Hg) Hops Hvals Hnm (hr_ents _ _ _ _ Hh) Ef Htk3
@@ -712,7 +712,7 @@ Section E2ER.
   Definition script_scoper (script : list step) : Prop :=
     script_okf script = true /\ script_valsr script = true /\ no_tick0 script = true /\ tick_frames script < 2 ^ 31 /\
     (forall slot, regs_of init script slot < 2 ^ 16) /\
-    forall slot, refs_kept cfg0 nclients script slot.
+    forall slot, In slot (client_slots nclients) -> refs_kept cfg0 nclients script slot.
 
   Lemma refs_kept_prefix a b slot : refs_kept cfg0 nclients (a ++ b) slot -> refs_kept cfg0 nclients a slot.
   Proof.
@@ -725,15 +725,16 @@ Section E2ER.
     split; [exact (script_okf_app a b H1)|]. split; [tauto|]. split; [exact (no_tick0_prefix a b H3)|].
     split; [pose proof (tick_frames_app_le a b); lia|]. split.
     - intros slot. specialize (H5 slot). rewrite regs_of_app, Hr in H5. lia.
-    - intros slot. exact (refs_kept_prefix a b slot (H6 slot)).
+    - intros slot Hin. exact (refs_kept_prefix a b slot (H6 slot Hin)).
   Qed.
 
   (* a slot-independent way to establish the scope *)
   Lemma scoper_by_bound script :
     script_okf script = true -> script_valsr script = true -> no_tick0 script = true -> tick_frames script < 2 ^ 31 ->
-    regs_all init script < 2 ^ 16 -> (forall slot, refs_kept cfg0 nclients script slot) -> script_scoper script.
+    regs_all init script < 2 ^ 16 -> refs_keptb_all cfg0 nclients script = true -> script_scoper script.
   Proof.
-    intros H1 H2 H3 H4 H5 H6. split; [exact H1|]. split; [exact H2|]. split; [exact H3|]. split; [exact H4|]. split; [|exact H6].
+    intros H1 H2 H3 H4 H5 H6. split; [exact H1|]. split; [exact H2|]. split; [exact H3|]. split; [exact H4|].
+    split; [|exact (refs_keptb_all_sound cfg0 nclients script H6)].
     intros slot. eapply N.le_lt_trans; [apply regs_of_le_all|exact H5].
   Qed.
 
@@ -754,7 +755,7 @@ Section E2ER.
   Lemma scopev_scoper script : script_scopev cfg0 nclients script -> script_scoper script.
   Proof.
     intros (H1 & H2 & H3 & H4 & H5). split; [exact H1|]. split; [exact (script_valsu_valsr script H2)|]. split; [exact H3|].
-    split; [exact H4|]. split; [exact H5|]. intros slot. exact (refs_kept_valsu script slot H2 H4).
+    split; [exact H4|]. split; [exact H5|]. intros slot _. exact (refs_kept_valsu script slot H2 H4).
   Qed.
 
   Theorem wr_run script : forall y, script_scoper script -> run init script = Ok y -> w_invr script y.
@@ -832,6 +833,34 @@ Section E2ER.
     specialize (Hk k). rewrite !mem_keys_get in Hk.
     destruct (al_get k (ce_comps x)) as [cv|] eqn:Ec; destruct (al_get k (se_comps x1)) as [cc|] eqn:Es; cbn [option_map opt_vrel]; try discriminate; [|exact I].
     exact (Hag k cv cc Ec Es).
+  Qed.
+
+  (* R1, in words: a reference held by a replica confirmed at tick T maps back, through the client's entity map, to
+     exactly the server entity the component referenced (visibly to the slot) after the frame of tick T - whether that
+     entity is itself replicated to the client (then the client entity is its replica) or not (then it is a live
+     placeholder); and the replica holds a reference wherever the server component is one *)
+  Corollary e2er_truthful_ref script y slot c e cid x h :
+    script_scoper script -> run init script = Ok y ->
+    al_get slot (y_clients y) = Some c -> mode_of script slot = MLive -> cl_status c = Connected ->
+    al_get e (cl_s2c c) = Some cid -> get_cent c cid = Some x -> ce_alive x = true -> ce_marker x = true -> ce_hist x = Some h ->
+    exists pre post y1, script = pre ++ post /\ run init pre = Ok y1 /\
+      forallb (fun st => negb (ends_session slot st)) post = true /\ sv_tick (y_server y1) = h_last h /\
+      (forall k rcid, al_get k (ce_comps x) = Some (CRef rcid) ->
+         exists t xt, sviewv slot (y_server y1) e k = Some (VRef t) /\ al_get rcid (cl_c2s c) = Some t /\
+                      al_get t (cl_s2c c) = Some rcid /\ get_cent c rcid = Some xt /\ ce_alive xt = true) /\
+      (forall k t, sviewv slot (y_server y1) e k = Some (VRef t) ->
+         exists rcid, al_get k (ce_comps x) = Some (CRef rcid) /\ al_get rcid (cl_c2s c) = Some t).
+  Proof.
+    intros Hsc Hrun Hc Hm Hst He Hx Ha Hmk Hh.
+    destruct (e2er_truthful_exact script y slot c e cid x h Hsc Hrun Hc Hm Hst He Hx Ha Hmk Hh) as (pre & post & y1 & E & R & Hp & Et & _ & Hv).
+    pose proof (wr_run script y Hsc Hrun slot c Hc) as [_ _ _ V3 _]. specialize (V3 Hm Hst). pose proof (cr_cs _ _ _ _ _ V3) as Hcs.
+    exists pre, post, y1. split; [exact E|]. split; [exact R|]. split; [exact Hp|]. split; [exact Et|]. split.
+    - intros k rcid Hk. specialize (Hv k). rewrite Hk in Hv. unfold opt_vrel in Hv.
+      destruct (sviewv slot (y_server y1) e k) as [[n|t]|]; cbn [vrel] in Hv; try contradiction.
+      pose proof (proj2 (s2c_c2s c t rcid (ci_emap c Hcs)) Hv) as Hs. destruct (ci_mapped c Hcs t rcid Hs) as [xt [Hxt Hat]].
+      exists t, xt. auto 6.
+    - intros k t Hk. specialize (Hv k). rewrite Hk in Hv. unfold opt_vrel in Hv.
+      destruct (al_get k (ce_comps x)) as [[n|rcid]|]; cbn [vrel] in Hv; try contradiction. exists rcid. auto.
   Qed.
 
   (* ================================================================ *)
